@@ -28,7 +28,7 @@ from explore import Violation
 from lattice import Dim, base_opts, build_args, deviations
 
 PROP = "C08"
-LINE_CONTENTS = ["a", "b c", "b  c ", "\tx", "", "y" * 31 + "漢 "]
+LINE_CONTENTS = ["a", "b c", "b  c ", "\tx", "", "y" * 31 + "漢 ", "d\r"]   # the last one: a CRLF line
 
 DIMS = [
     Dim("view", [("unified", {}), ("sbs", {"side-by-side": True})]),
@@ -360,7 +360,7 @@ def run_log(task):
 
 ASSUMPTIONS = [
     "producer: real git 2.39 `diff --no-index` / `log -p` / `show` with its default palette; files of "
-    "<= n lines over 5 line contents (trailing blanks and tab indent so that git's whitespace-error "
+    "<= n lines over 7 line contents (trailing blanks, tab indent and a CRLF line so that git's whitespace-error "
     "colouring occurs); older single-sequence added lines and ESC[0m resets derived by rewriting",
     "not demanded: equality for elements styled raw; lines git coloured with a user-changed "
     "color.diff.old/new (documented: needs git-minus-style / git-plus-style)",
